@@ -35,7 +35,8 @@ def fam_nested():
 def families(tier):
   fams = [('groups4', execlib.fam_groups(4, 'CSEXF')),
           ('groups3-abort-timeout', execlib.fam_groups(3, 'CAT')),
-          ('nested', fam_nested())]
+          ('nested', fam_nested()),
+          ('teardown-nesting', execlib.fam_teardown_nesting())]
   if tier != 'quick':
     fams += [('groups5', execlib.fam_groups(5, 'CSEX')),
              ('groups4-abort-timeout', execlib.fam_groups(4, 'CATE'))]
